@@ -2,6 +2,7 @@ package np
 
 import (
 	"go/constant"
+	"strings"
 
 	"golang.org/x/tools/go/ssa"
 )
@@ -9,7 +10,7 @@ import (
 func init() { register("C12", propC12) }
 
 func propC12(c *Ctx) {
-	c.Explanation = "Timing (about 3 s), races between timers and replies beyond mutual exclusion, and what the cache contains after an arbitrary history are (T7) whether resolution is required at all: IsResolutionRequired is exactly linkCache != nil && RemoteLinkAddress == \"\", and addAddressLocked sets linkCache for every endpoint reference (permanent, replaced or temporary) on a link that needs resolution, under exactly the capability and resolver tests, and nowhere else. NOT decided. Decided are the structural necessary conditions: (T1) arp.HandlePacket answers a request only after CheckLocalAddress(target) != 0, with op = reply, sender hardware = the route's local link address, sender protocol = the request's target, target hardware/protocol = the request's sender fields, written on the inbound route (whose remote link address NIC.DeliverNetworkPacket set to the frame's source); it learns (sender protocol -> sender hardware) from every reply and from exactly those requests it answers; requests are broadcast (route with ff:ff:ff:ff:ff:ff) and carry the link endpoint's own address, the local address and the wanted address in the right fields; the IPv6 neighbour solicitation/advertisement code follows the same table (target = bytes 8..24, CheckLocalAddress, solicited|override flags, target link-address option, source address = target, learning). (T2) typestate: changeState is called only from four sites, each requesting a transition that changeState's own switch allows from every entry state possible at that site (state(): to expired only when not expired; checkLinkRequest: to failed only under state == incomplete; add: to ready only for an incomplete or freshly made entry; makeAndAddEntry: to expired, allowed from everywhere); wakers are asserted and done is closed exactly when the entry leaves incomplete; the state word is written only there and by the slot reset. (T3) cache map, ring index, slots and every entry field are touched only with linkAddrCache.mu held; ring reuse: the old key is deleted exactly when it still maps to the recycled slot, BEFORE the slot is overwritten, and the new key is mapped to the slot after it was filled; next advances by one modulo the ring size; the index stays inside the ring. (T4) constants: 3 attempts, 1 s timeout, 1 min age limit, 512 slots, passed to the cache in that order; failed exactly when attempt+1 >= attempts while still incomplete; a request is sent at the top of every iteration and the loop ends on done or when checkLinkRequest says stop. (T5) get: static address first; ready -> the entry's link address; failed -> ErrNoLinkAddress; incomplete -> register the waker and ErrWouldBlock with the entry's done channel; expired or absent -> (no resolver: ErrNoLinkAddress) new incomplete entry with empty link address, waker registered, resolution goroutine started with that entry's done, ErrWouldBlock; state() expires exactly by time.Now().After(expiration). (T6) nothing is sent before resolution: sendSynTCP in handshake.execute and sendUDP in udp Write are reached only when the route needs no resolution or Resolve/resolveRoute returned nil; Route.Resolve stores the learned address only on success. NOT decided: the 3 s bound, timers racing with replies, cache overflow behaviour beyond T3, RemoveWaker's inverted NIC test (observation)."
+	c.Explanation = "Timing (about 3 s), races between timers and replies beyond mutual exclusion, and what the cache contains after an arbitrary history are NOT decided. Decided are the structural necessary conditions: (T1) arp.HandlePacket answers a request only after CheckLocalAddress(target) != 0, with op = reply, sender hardware = the route's local link address, sender protocol = the request's target, target hardware/protocol = the request's sender fields, written on the inbound route (whose remote link address NIC.DeliverNetworkPacket set to the frame's source); it learns (sender protocol -> sender hardware) from every reply and from exactly those requests it answers; requests are broadcast (route with ff:ff:ff:ff:ff:ff) and carry the link endpoint's own address, the local address and the wanted address in the right fields; the IPv6 neighbour solicitation/advertisement code follows the same table (target = bytes 8..24, CheckLocalAddress, solicited|override flags, target link-address option, source address = target, learning). (T2) typestate: changeState is called only from four sites, each requesting a transition that changeState's own switch allows from every entry state possible at that site (state(): to expired only when not expired; checkLinkRequest: to failed only under state == incomplete; add: to ready only for an incomplete or freshly made entry; makeAndAddEntry: to expired, allowed from everywhere); wakers are asserted and done is closed exactly when the entry leaves incomplete; the state word is written only there and by the slot reset. (T3) cache map, ring index, slots and every entry field are touched only with linkAddrCache.mu held; ring reuse: the old key is deleted exactly when it still maps to the recycled slot, BEFORE the slot is overwritten, and the new key is mapped to the slot after it was filled; next advances by one modulo the ring size; the index stays inside the ring. (T4) constants: 3 attempts, 1 s timeout, 1 min age limit, 512 slots, passed to the cache in that order; failed exactly when attempt+1 >= attempts while still incomplete; a request is sent at the top of every iteration and the loop ends on done or when checkLinkRequest says stop. (T5) get: static address first; ready -> the entry's link address; failed -> ErrNoLinkAddress; incomplete -> register the waker and ErrWouldBlock with the entry's done channel; expired or absent -> (no resolver: ErrNoLinkAddress) new incomplete entry with empty link address, waker registered, resolution goroutine started with that entry's done, ErrWouldBlock; state() expires exactly by time.Now().After(expiration). (T6) nothing is sent before resolution: sendSynTCP in handshake.execute and sendUDP in udp Write are reached only when the route needs no resolution or Resolve/resolveRoute returned nil; Route.Resolve stores the learned address only on success. (T7) whether resolution is required at all: IsResolutionRequired is exactly linkCache != nil && RemoteLinkAddress == \"\", and addAddressLocked sets linkCache for every endpoint reference (permanent, replaced or temporary) on a link that needs resolution, under exactly the capability and resolver tests, and nowhere else. NOT decided: the 3 s bound, timers racing with replies, cache overflow behaviour beyond T3, RemoveWaker's inverted NIC test (observation)."
 
 	t1 := c.Rule("T1", "K1 guards + K5 field provenance", "ARP/NDP reply and learning tables", 30)
 	if fn := c.Fn(t1, "(*arp.endpoint).HandlePacket"); fn != nil {
@@ -129,8 +130,18 @@ func propC12(c *Ctx) {
 	if fn := c.Fn(t2, "(*stack.linkAddrEntry).state"); fn != nil {
 		c.CheckSites(t2, fn, []SiteSpec{
 			{Kind: "call", Target: cs, Args: []string{"$0", "3"}, Guards: []string{"!($0.s == 3)", "time.Time.After(time.Now(), $0.expiration)"}, Exact: true, N: 1, Why: "to expired, from a non-expired state (allowed from incomplete/ready/failed), exactly when now is after the expiration"},
-			{Kind: "return", Args: []string{"$0.s"}, N: 1, Why: "the (possibly just expired) state"},
 		})
+		// every return hands back the entry's current state word (whatever the
+		// number of return statements: early return <-> fall-through)
+		nr := 0
+		for _, st := range Sites(fn) {
+			if st.Kind == "return" {
+				nr++
+				ok := len(st.Args) == 1 && (st.Args[0] == "$0.s" || strings.HasPrefix(st.Args[0], "$0.s@"))
+				c.Check(ok, t2, FuncName(fn)+"/returns-current-state:"+strings.Join(st.Args, ","), c.pos(st.Instr), "returns the (possibly just expired) state", "state() returns something other than the entry's state word")
+			}
+		}
+		c.Check(nr >= 1, t2, FuncName(fn)+"/has-return", c.P.Pos(fn.Pos()), "returns", "no return found")
 	}
 	if fn := c.Fn(t2, "(*stack.linkAddrCache).checkLinkRequest"); fn != nil {
 		st := "(*stack.linkAddrEntry).state($0.cache[$1]#0)"
